@@ -1,34 +1,39 @@
 -------------------------- MODULE StaticRouteTrace --------------------------
 (* Trace judge for C16.  Reads a JSON list of traces recorded from the real static route:
-     [c |-> request (path atoms, fb, head, range, ims),
-      obs |-> observations of that request, one per interface / spelling that produced a
-              different projection: [status, body, cr, clen, opens, exc]]
-   Every trace is one initial state.  Total: every observation is consumed; the first failing
-   property clause is recorded in `verdict` (P:exception, P:containment, P:must-serve, P:not-404,
-   P:status, P:body, P:slice, P:206, P:416, P:416-size, P:304, P:304-body, P:content-range,
-   P:content-length); the first difference from the designed outcome that the property does not
-   demand is recorded in `dnote` (D:status, D:opens, D:body, D:content-range, D:content-length)
-   and judging continues. *)
+     [steps |-> sequence of [m |-> state of the mutable file root/m when the request was made (0 absent, 1, 2),
+                             c |-> request (path atoms, fb, head, range, ims, zone, clock),
+                             o |-> observation [status, body, cr, clen, opens, exc, lm]]]
+   A single request observed under several interfaces / spellings is a trace whose steps repeat c; a history on
+   one route object is a trace whose steps follow one another with the file system changing in between: every
+   response is judged against the file system at that time (ResponseFollowsFileSystem).
+   Every trace is one initial state.  Total: every step is consumed; the first failing property clause is
+   recorded in `verdict` (P:exception, P:containment, P:must-serve, P:not-404, P:status, P:body, P:slice, P:206,
+   P:416, P:416-size, P:304, P:304-body, P:content-range, P:content-length, P:last-modified); the first
+   difference from the designed outcome that the property does not demand is recorded in `dnote` (D:status,
+   D:opens, D:body, D:content-range, D:content-length, D:last-modified) and judging continues. *)
 EXTENDS StaticRouteOps, Json, IOUtils
 
 Traces == JsonDeserialize(IOEnv.TRACE_FILE)
 
 VARIABLES tid, l, verdict, dnote
-vars == <<tid, l, verdict, dnote>>
+vars == <<tid, l, verdict, dnote, mstate>>
 T == Traces[tid]
+MAt(i) == IF i <= Len(T.steps) THEN T.steps[i].m ELSE 0
 
-Init == tid \in 1..Len(Traces) /\ l = 1 /\ verdict = "ok" /\ dnote = "ok"
+Init == /\ tid \in 1..Len(Traces) /\ l = 1 /\ verdict = "ok" /\ dnote = "ok"
+        /\ mstate = (IF Len(Traces[tid].steps) >= 1 THEN Traces[tid].steps[1].m ELSE 0)
 
-Step == /\ l >= 1 /\ l <= Len(T.obs) /\ verdict = "ok"
-        /\ verdict' = PVerdict(T.c, T.obs[l])
-        /\ dnote' = (IF dnote # "ok" THEN dnote ELSE DVerdict(T.c, T.obs[l]))
+Step == /\ l >= 1 /\ l <= Len(T.steps) /\ verdict = "ok"
+        /\ verdict' = PVerdict(T.steps[l].c, T.steps[l].o)          \* evaluated with mstate = T.steps[l].m
+        /\ dnote' = (IF dnote # "ok" THEN dnote ELSE DVerdict(T.steps[l].c, T.steps[l].o))
+        /\ mstate' = MAt(l + 1)
         /\ l' = l + 1 /\ UNCHANGED tid
 
-Done == /\ l >= 1 /\ (l > Len(T.obs) \/ verdict # "ok")
+Done == /\ l >= 1 /\ (l > Len(T.steps) \/ verdict # "ok")
         /\ PrintT(<<"VERDICT", tid, IF verdict # "ok" THEN verdict ELSE dnote, l - 1>>)
-        /\ l' = -1 /\ UNCHANGED <<tid, verdict, dnote>>
+        /\ l' = -1 /\ UNCHANGED <<tid, verdict, dnote, mstate>>
 
 Next == Step \/ Done
 Spec == Init /\ [][Next]_vars
-Sound == l <= Len(T.obs) + 1
+Sound == l <= Len(T.steps) + 1
 =============================================================================
